@@ -116,6 +116,13 @@ struct c17_session : public vsim_session {
         << " " << vs_hex(c->x_ext) << " " << vs_hex(c->v_ext)
         << " " << vs_hex(c->ext_force_k) << " " << vs_hex(c->ext_mass) << " " << vs_hex(c->ext_gamma) << " " << vs_hex(c->ext_sigma)
         << "\n";
+      // the force every bias computed for its first variable at this step (what communicate_forces() routed), and its bypass flag
+      for (colvarbias *b : proxy->colvars->biases) {
+        double F = 0.0;
+        if (b->is_enabled(colvardeps::f_cvb_apply_force) && b->is_enabled() && b->colvar_forces.size())
+          F = cvm::real(b->get_time_step_factor()) * b->colvar_forces[0].real_value;
+        o << "BF " << b->bias_type << " " << vs_hex(F) << " " << (b->is_enabled(colvardeps::f_cvb_bypass_ext_lagrangian) ? 1 : 0) << "\n";
+      }
       cvm::clear_error();
       return true;
     }
